@@ -188,7 +188,7 @@ RInv(a) == IF IsNaN(a) THEN NaN
 RIsNonNeg(a) == ~IsNaN(a) /\ ~a.num.neg
 RIsInt(a) == ~IsNaN(a) /\ a.den = IOne
 \* floor of a non-negative value, as an integer
-RFloorNonNeg(a) == I(FALSE, DivModM(a.num.mag, a.den.mag)[1])
+RFloorNonNeg(a) == IF a.den = IOne THEN a.num ELSE I(FALSE, DivModM(a.num.mag, a.den.mag)[1])
 \* "lt" "eq" "gt" "un"
 RCmp(a, b) == IF IsNaN(a) \/ IsNaN(b) THEN "un"
               ELSE LET c == ICmp(IMul(a.num, b.den), IMul(b.num, a.den))
